@@ -154,7 +154,7 @@ func (s *Server) Run(addr string, opt ...Option) error {
 	}
 	s.mu.Lock()
 	s.listener, err = net.Listen("tcp", addr)
-	s.listenerReady = true
+	s.listenerReady = err == nil
 	s.mu.Unlock()
 	verifPoint("run.listened", 0, 0)
 	if err != nil {
